@@ -132,7 +132,8 @@ func ToCommandLine(wf WireFormat, resolveIds bool) (rule string, err error) {
 	// Detect if rule is a watch.
 	// Must have all syscalls and perm field. Only other valid fields are
 	// dir, path and key, according to auditctl source
-	if permIdx, ok := existingFields[permField]; r.allSyscalls && ok {
+	// The -w form always means list exit and action always.
+	if permIdx, ok := existingFields[permField]; r.allSyscalls && ok && r.flags == exitFilter && r.action == alwaysAction {
 		extraFields, pos := false, 0
 		var path, key string
 	loop:
@@ -154,7 +155,7 @@ func ToCommandLine(wf WireFormat, resolveIds bool) (rule string, err error) {
 				break loop
 			}
 		}
-		if !extraFields {
+		if !extraFields && path != "" {
 			arguments := []string{"-w", path, "-p", permission(r.values[permIdx]).String()}
 			if len(key) > 0 {
 				arguments = append(arguments, "-k", key)
